@@ -23,6 +23,24 @@ def import_berte():
     return bert_e
 
 
+_AUTHOR_OPTS = {}
+
+
+def author_options(author, own):
+    """pr_author_options as the real settings loader builds it from a
+    settings file that lists `author` (with the bypasses `own`) between two
+    other authors who hold every bypass / none: options are per author."""
+    key = (author, tuple(sorted(own)))
+    if key not in _AUTHOR_OPTS:
+        from bert_e.settings import PrAuthorsOptions
+        f = PrAuthorsOptions()
+        data = {'aaron-first': list(f.BYPASS_LIST), author: sorted(own),
+                'zoe-last': []}
+        _AUTHOR_OPTS[key] = f.deserialize(data)
+    import copy
+    return copy.deepcopy(_AUTHOR_OPTS[key])
+
+
 class Part:
     """Result of one partition."""
     def __init__(self):
